@@ -540,7 +540,7 @@ func VH_C10_reload() {
 		verifCheckState("C10.after-retry-of-the-same-file", sm, &bad, all, verifKeys)
 		verifReach("C10.same-file-retried", true)
 	}
-	verifAssert("C10.failed-generation-not-running", verifBlockedIn("runConfig") == 1)
+	verifAssert("C10.failed-generation-not-running", verifBlockedIn("runConfig") <= 1)
 	verifReach("C10.failed-reload-checked", true)
 
 	// a later good reload replaces g1 completely (it also uses addresses the failed one tried)
@@ -990,7 +990,6 @@ func VH_C11_same_id_two_ciphers_across_reload() {
 	verifQuiesce()
 	verifReach("C11.two-ciphers.done", true)
 }
-
 
 // C10: top-level sections come and go between files (legacy keys only, services only, a file
 // with neither), with a malformed file in between: what runs is exactly the last file that
